@@ -127,6 +127,6 @@ func (ex *Exec) sortSlice(st *State, call *ast.CallExpr, args []Val, stable bool
 	ex.mutCount++
 	gi := &GhostInst{Name: piN, Params: []Sort{SInt}, Ret: SInt, RetT: tInt}
 	gv := &GhostInst{Name: pinvN, Params: []Sort{SInt}, Ret: SInt, RetT: tInt}
-	ex.ghosts["sort$pi"] = gi
-	ex.ghosts["sort$pinv"] = gv
+	st.setCallGhost("sort$pi", gi)
+	st.setCallGhost("sort$pinv", gv)
 }
